@@ -793,6 +793,30 @@ def run_plan(plan, sched_seed=None, sched_replay=None):
         elif pre_kex and plan['strict'] and ended:
             sim.probes['strict_fatal'] += 1
 
+    # between its own first NEWKEYS and the peer's, the only message the
+    # exchange calls for is that NEWKEYS: a KEXINIT arriving there must not
+    # make the endpoint start another exchange (seen as a KEXINIT of its own)
+    for label, pkts in sorted(sim.pkts.items()):
+        if sim.conns.get(label) is None:
+            continue
+
+        sent_newkeys = False
+
+        for d, t, *_rest in pkts:
+            if d == 'S' and t == 21:
+                sent_newkeys = True
+            elif d == 'R' and t == 21:
+                break
+            elif d == 'S' and t == 20 and sent_newkeys:
+                world.violation(
+                    'kex-restarted-before-newkeys',
+                    '%s answered a KEXINIT that arrived where only NEWKEYS '
+                    'is called for (after its own NEWKEYS, before the '
+                    'peer\'s) with a KEXINIT of its own: the first exchange '
+                    'was restarted (injected %r)' %
+                    (label, out.get('injected')), sig='kexinit')
+                break
+
     if role == 'client':
         # by the client's own packet log: when USERAUTH_SUCCESS arrived, had
         # it sent a USERAUTH_REQUEST that no FAILURE had answered yet?  (What
